@@ -5,9 +5,11 @@ import time
 from .common import ints
 
 PROP_FILE = "Properties/C16.v"
-GEN = ["GenC16"]
-RUN_FILES = ["Model/C16_run.v"]
+GEN = ["GenC16", "GenC16imp"]
+RUN_FILES = ["Model/C16_run.v", "Model/C16_imp_run.v"]
 
+IHDR = ("From Coq Require Import ZArith List Bool.\nFrom PR Require Import Base.ListX Model.Boundary Model.C16_run Model.C16_imp_run.\n"
+        "Import ListNotations.\nOpen Scope Z_scope.\n")
 HDR = ("From Coq Require Import ZArith List Bool.\nFrom PR Require Import Base.ListX Model.Boundary Model.C16_run.\n"
        "Import ListNotations.\nOpen Scope Z_scope.\n")
 
@@ -830,6 +832,10 @@ def run(ctx):
     for i in range(0, len(L_dec), 500):
         texts.append(("c16_dec_%d" % (i // 500), HDR + "Definition cases : list (Z * Z * list Z) := [%s].\nEval vm_compute in (bad chk_decimate cases).\n"
                       % ";\n".join(L_dec[i:i + 500]), L_dec[i:i + 500], "decimate"))
+    # the same cases, run through the definition regenerated from AreaBoundary.decimate by the imperative front end
+    for i in range(0, len(L_dec), 500):
+        texts.append(("c16_imp_dec_%d" % (i // 500), IHDR + "Definition cases : list (Z * Z * list Z) := [%s].\nEval vm_compute in (bad chk_imp_decimate cases).\n"
+                      % ";\n".join(L_dec[i:i + 500]), L_dec[i:i + 500], "generated_decimate"))
     for i in range(0, len(L_full), 300):
         texts.append(("c16_full_%d" % (i // 300), HDR + "Definition cases : list (Z * Z * list (list pix)) := [%s].\nEval vm_compute in (bad chk_full_sides cases).\n"
                       % ";\n".join(L_full[i:i + 300]), L_full[i:i + 300], "get_boundary_lonlats"))
@@ -893,6 +899,8 @@ def run(ctx):
     L = list(dict.fromkeys(L))
     texts.append(("c16_nan", HDR + "Definition cases : list (Z * Z * option Z * list pix * list pix * option (list (list pix))) := [%s].\n"
                   "Eval vm_compute in (bad chk_nan cases).\n" % ";\n".join(L), L, "nan_filter"))
+    texts.append(("c16_imp_nan", IHDR + "Definition cases : list (Z * Z * option Z * list pix * list pix * option (list (list pix))) := [%s].\n"
+                  "Eval vm_compute in (bad chk_imp_nan cases).\n" % ";\n".join(L), L, "generated_filter_sides_nans"))
 
     # ================================================================= geostationary areas
     L = []
